@@ -126,3 +126,9 @@ fn handshake(request: Request, stream: &mut Stream) -> Result<(), WebsocketError
 
     Ok(())
 }
+
+/// Verification hook: exposes the private handshake (only with the `verif` feature).
+#[cfg(feature = "verif")]
+pub fn verif_handshake(request: Request, stream: &mut Stream) -> Result<(), WebsocketError> {
+    handshake(request, stream)
+}
